@@ -78,15 +78,15 @@ PROPS = {
     'C06': dict(fams=['crud', 'versions', 'rebase_pairs', 'intra', 'suffix', 'capacity', 'codec', 'bulk'],
                 views=['obs', 'shape'], oracles=['canonical'], pyref=True, filt=lambda k, o: k == 'R' and o in EQ_OPS,
                 key=lambda ops: any(o.startswith('eq') for o in ops)),
-    'C07': dict(fams=['rebase_pairs', 'versions'], views=['obs'], oracles=['canonical', 'memo'], oops=REBASE_OPS, pyref=True,
+    'C07': dict(fams=['rebase_pairs', 'versions'], views=['obs'], oracles=['unchanged', 'canonical', 'memo'], oops=REBASE_OPS, pyref=False,
                 filt=lambda k, o: o in REBASE_OPS, twin='rebase',
                 key=lambda ops: any(o.startswith('rebase') for o in ops)),
     'C08': dict(fams=['rebase_pairs'], views=['obs', 'ident', 'shape'], vops=REBASE_OPS, oracles=['sharing'], pyref=False,
                 filt=lambda k, o: False, key=lambda ops: any(o.startswith('rebase_on') for o in ops)),
-    'C09': dict(fams=['intra', 'versions'], views=['obs', 'shape'], vops={'intra'}, oracles=['canonical', 'memo'], oops={'intra'},
-                pyref=True, filt=lambda k, o: o == 'intra', twin='intra',
+    'C09': dict(fams=['intra', 'versions'], views=['obs', 'shape'], vops={'intra'}, oracles=['unchanged', 'canonical', 'memo'], oops={'intra'},
+                pyref=False, filt=lambda k, o: o == 'intra', twin='intra',
                 key=lambda ops: any(o.startswith('intra') for o in ops)),
-    'C10': dict(fams=['cost', 'crud', 'suffix', 'big'], views=['obs', 'ident', 'fresh'], oracles=['cost'], pyref=False,
+    'C10': dict(fams=['cost', 'crud', 'suffix', 'big', 'versions'], views=['obs', 'ident', 'fresh'], oracles=['cost'], pyref=False,
                 vops={'clone', 'apply', 'pop_front', 'pop_front_slow', 'push', 'set', 'cow_into', 'cow_make', 'cow_make2', 'cow_read',
                       'touch', 'iter_cow', 'to_vector', 'to_list', 'new_list', 'new_vec', 'list_slow', 'vec_iter', 'repeat',
                       'repeat_slow', 'from_elem', 'empty', 'ssz_list', 'ssz_vec', 'hash', 'get', 'len', 'iter_from', 'level_iter',
@@ -101,7 +101,7 @@ PROPS = {
                 filt=lambda k, o: k == 'R' and o in SERDE_OPS, key=lambda ops: any(o.split()[0] in SERDE_OPS for o in ops)),
     'C14': dict(fams=['crud', 'versions', 'bulk', 'suffix', 'codec'], views=['obs'], oracles=[], pyref=False,
                 filt=lambda k, o: False, key=lambda ops: True, lockstep=True),
-    'C15': dict(fams=['invalid_args', 'bulk', 'capacity', 'deep', 'codec', 'builder'], views=['obs'],
+    'C15': dict(fams=['invalid_args', 'bulk', 'capacity', 'deep', 'codec', 'builder', 'crud', 'versions'], views=['obs'],
                 oracles=['wellformed', 'error_preserves'], pyref=False, filt=lambda k, o: False, errors_only=True,
                 key=lambda ops: True),
     'C16': dict(fams=['par', 'fault'], views=['obs'], oracles=['par'], pyref=True, par_only=True,
@@ -377,9 +377,9 @@ def classify(line):
 
 
 def pyref_findings(prop, text, trace):
-    """deviation of the implementation trace from the reference semantics, attributed to the property.
-    Only the FIRST operation at which the trace deviates is looked at (what follows is a consequence); it is a
-    finding when a deviating line of that operation is the property's business (PROPS[prop]['filt']).
+    """deviation of the implementation trace from the reference semantics on a line that is the property's business
+    (PROPS[prop]['filt']); used by the properties that are stated absolutely ("equals what a plain vector / the SSZ
+    specification gives"). The relative properties (unchanged by, same as, isolated from) have pyref off and their own oracles.
     A panic / abort / time-out is a finding for C15 wherever it happens (C16: time-outs), for the others when
     the operation that died is relevant."""
     spec = PROPS[prop]
@@ -399,13 +399,13 @@ def pyref_findings(prop, text, trace):
         if act.endswith((' panic', ' abort', ' timeout')):
             what = act.rsplit(' ', 1)[1]
             opname = m.op_text.split()[0] if m.op_text else ''
-            if prop == 'C15' or (prop == 'C16' and what == 'timeout') or (m.op == mm[0].op and filt('R', opname)):
+            if prop == 'C15' or (prop == 'C16' and what == 'timeout') or filt('R', opname):
                 out.append(oracles.Finding(m.op, {'panic': 'panic in `%s`', 'abort': 'the process died (abort / stack overflow / out of memory) in `%s`',
                                                   'timeout': '`%%s` did not terminate within %d s' % HARNESS_TIMEOUT}[what] % m.op_text))
             return out
     if not spec.get('pyref', True):
         return out
-    first = mm[0].op
+    first = None
     if spec.get('par_only'):
         # C16: a parallel result that differs from the reference counts only when the sequential root computations
         # of the same history are right (otherwise hashing as such is broken: C02's business)
@@ -416,7 +416,7 @@ def pyref_findings(prop, text, trace):
         if first is None:
             return out
     for m in mm:
-        if m.op != first:
+        if first is not None and m.op != first:
             continue
         ln = m.predicted or m.actual or ''
         opname = m.op_text.split()[0] if m.op_text else ''
@@ -437,7 +437,7 @@ def oracle_findings(prop, text, trace):
             fs = oracles.ORACLES[name](cfg, ops, steps)
         except Exception as e:
             fs = [oracles.Finding(0, 'oracle %s crashed on this trace: %r' % (name, e))]
-        if oops is not None and name in ('canonical', 'memo'):
+        if oops is not None and name in ('canonical', 'memo', 'unchanged'):
             # these two audit every state; for this property only the states right after its operations count
             fs = [f for f in fs if 0 < f.op <= len(ops) and ops[f.op - 1].split()[0] in oops]
         out += fs
@@ -452,25 +452,23 @@ def correspondence(prop, text, it, mt):
     if mt['header'].endswith('unsupported'):
         return {}, {}
     spec = PROPS[prop]
-    d = tracecmp.compare(it['lines'], mt['lines'])
-    rel = {}
     filt = spec['filt']
     ops = [l for l in text.splitlines() if l and not l.startswith(('#', 'config'))]
-    for v, (n, a, b) in d.items():
+    vops = spec.get('vops')
+
+    def relevant(view, n, a, b):
         opname = ops[n - 1].split()[0] if 0 < n <= len(ops) else ''
-        if v == 'obs':
+        if view == 'obs':
             if spec.get('errors_only'):
                 # C15: what matters is whether and how a call fails
-                if any((' err:' in x and not x.endswith(('err:pending', 'err:badreg'))) or x.endswith(' panic') for x in (a, b)) \
-                        and a.split(' ', 2)[2:] != b.split(' ', 2)[2:] and a[0] == 'R':
-                    rel[v] = (n, a, b)
-            elif filt(classify(a if a != '<missing>' else b), opname):
-                rel[v] = (n, a, b)
-        elif v in spec['views']:
-            vops = spec.get('vops')
-            if vops is None or opname in vops:
-                rel[v] = (n, a, b)
-    drift = {v: x for v, x in d.items() if v not in rel}
+                return a[0] == 'R' and a.split(' ', 2)[2:] != b.split(' ', 2)[2:] and any(
+                    (' err:' in x and not x.endswith(('err:pending', 'err:badreg'))) or x.endswith(' panic') for x in (a, b))
+            return filt(classify(a if a != '<missing>' else b), opname)
+        return view in spec['views'] and (vops is None or opname in vops)
+
+    d = tracecmp.compare(it['lines'], mt['lines'], relevant=relevant)
+    rel = {v: x for v, x in d.items() if not v.startswith('drift:')}
+    drift = {v[6:]: x for v, x in d.items() if v.startswith('drift:')}
     return rel, drift
 
 
